@@ -9,6 +9,12 @@
  *   links  = per table index  "x" (memory was freed: ASan poisoned)  or
  *            next,prev,parent,children,name,value   ("-" = NULL, "?" = pointer to no known node)
  *   result = X (guard of the history language failed, call not made) | P<idx> | Z<int> | L<visit sequence>
+ *            | L<idx>:<depth>. ... >P<idx> (walk: handler calls with the depth it was told, node returned)
+ *
+ * Nodes enter the table when mpt_node_new() allocates them (this file compiles node_new.c
+ * and identifier.c itself, with malloc replaced by a seam that can be told to fail its
+ * k-th call), so the indices are allocation order also for clones the library destroys
+ * again before it returns.
  *
  * Released-exactly-once: a second free or a use after free aborts under ASan
  * (token F); "end" destroys whatever is left through the library and reports the
@@ -27,6 +33,32 @@ static uintptr_t tabx[MAXN];
 static int ntab;
 #define NODE(i) ((MPT_STRUCT(node) *) ~tabx[i])
 
+/* ---- allocation seam: mptcore/node/node_new.c and mptcore/misc/identifier.c are compiled
+ * here (the archive members are then not linked), malloc() in them is c14_malloc() ---- */
+static long oom_count;   /* > 0: that many calls from now the seam answers NULL (once) */
+static void *c14_malloc(size_t n)
+{
+	if (oom_count > 0 && !--oom_count) return 0;
+	return malloc(n);
+}
+static void learn(MPT_STRUCT(node) *n);
+#include <sys/uio.h>
+#include <errno.h>
+#include "types.h"
+#include "convert.h"
+#define malloc(n) c14_malloc(n)
+#define mpt_node_new c14_lib_node_new
+#include "node/node_new.c"
+#undef mpt_node_new
+#include "misc/identifier.c"
+#undef malloc
+extern MPT_STRUCT(node) *mpt_node_new(size_t len)
+{
+	MPT_STRUCT(node) *n = c14_lib_node_new(len);
+	if (n) learn(n);
+	return n;
+}
+
 /* ---- value: a minimal metatype counting its live instances ---- */
 struct hmeta { MPT_INTERFACE(metatype) mt; int val; };
 static int nmeta_live;
@@ -42,7 +74,12 @@ static MPT_INTERFACE(metatype) *hm_new(int val)
 	++nmeta_live;
 	return &m->mt;
 }
-static MPT_INTERFACE(metatype) *hm_clone(const MPT_INTERFACE(metatype) *m) { return hm_new(((const struct hmeta *) m)->val); }
+/* value 3 is a metatype that cannot be cloned */
+static MPT_INTERFACE(metatype) *hm_clone(const MPT_INTERFACE(metatype) *m)
+{
+	int v = ((const struct hmeta *) m)->val;
+	return v == 3 ? 0 : hm_new(v);
+}
 static const MPT_INTERFACE_VPTR(metatype) hmeta_ctl = { { hm_conv }, hm_unref, hm_addref, hm_clone };
 
 /* ---- table ---- */
@@ -60,25 +97,29 @@ static void learn(MPT_STRUCT(node) *n)
 	if (ntab >= MAXN) { fprintf(stderr, "table full\n"); abort(); }
 	tabx[ntab++] = ~(uintptr_t) n;
 }
-/* clone results: new nodes in the order the library allocates them (pre-order) */
-static void learn_list(MPT_STRUCT(node) *n, int budget)
-{
-	for (; n; n = n->next) {
-		if (--budget < 0) abort();
-		learn(n);
-		learn_list(n->children, budget);
-	}
-}
 static void put_idx(const MPT_STRUCT(node) *n)
 {
 	int i = idx(n);
 	if (i == -1) vh_add("-"); else if (i < 0) vh_add("?"); else vh_add("%d", i);
 }
+/* names: 0 unnamed, 1..3 "a".."c", 4 a text of 21 characters (needs its own allocation in a
+ * default node and in a clone), 5 a binary identifier (no charset, one byte 'a'), 6 a text of 29 characters
+ * (allocated in a default node, inside the node in a clone), 9 anything else */
+static const char LONGNAME[] = "Labcdefghijklmnopqrst";
+static const char MIDNAME[] = "Mabcdefghijklmnopqrstuvwxyz01";   /* 29 + 1 bytes: mpt_node_new(30) makes room for it */
 static int name_code(const MPT_STRUCT(node) *n)
 {
-	const char *id = mpt_node_ident(n);
-	if (!id) return 0;
-	if (id[0] >= 'a' && id[0] <= 'c' && !id[1]) return id[0] - 'a' + 1;
+	const MPT_STRUCT(identifier) *id = &n->ident;
+	const char *d = mpt_identifier_data(id);
+	if (!id->_len) return id->_charset ? 9 : 0;
+	if (id->_charset == MPT_CHARSET(UTF8)) {
+		if (d != mpt_node_ident(n)) return 9;
+		if (id->_len == 2 && d[0] >= 'a' && d[0] <= 'c' && !d[1]) return d[0] - 'a' + 1;
+		if (id->_len == sizeof(LONGNAME) && !memcmp(d, LONGNAME, sizeof(LONGNAME))) return 4;
+		if (id->_len == sizeof(MIDNAME) && !memcmp(d, MIDNAME, sizeof(MIDNAME))) return 6;
+		return 9;
+	}
+	if (!id->_charset && id->_len == 1 && d[0] == 'a' && !mpt_node_ident(n)) return 5;
 	return 9;
 }
 static int val_code(const MPT_STRUCT(node) *n)
@@ -121,7 +162,7 @@ static void shape_list(const MPT_STRUCT(node) *n, int first)
 	i = idx(n);
 	if (i < 0 || is_freed(i)) { vh_add("?"); return; }
 	if (!first) vh_add(",");
-	vh_add("%d%c%d", i, "_abc??????"[name_code(n)], val_code(n));
+	vh_add("%d%c%d", i, "_abcLBM???"[name_code(n)], val_code(n));
 	if (n->children) { vh_add("("); shape_list(n->children, 1); vh_add(")"); }
 	shape_list(n->next, 0);
 }
@@ -183,6 +224,54 @@ static int trav_fcn(MPT_STRUCT(node) *n, void *ctx, size_t depth)
 	return 0;
 }
 static void res_p(const MPT_STRUCT(node) *n) { vh_tok("P"); put_idx(n); }
+/* walk: the handler records node and depth and answers non-zero at its walk_stop-th call */
+static int walk_seq[4 * MAXN], walk_dep[4 * MAXN], walk_n, walk_stop;
+static int walk_fcn(MPT_STRUCT(node) *n, void *ctx, size_t depth)
+{
+	(void) ctx;
+	if (walk_n < 4 * MAXN) { walk_seq[walk_n] = idx(n); walk_dep[walk_n] = (int) depth; }
+	return ++walk_n == walk_stop;
+}
+static int order_flag(const char *o)
+{
+	return !strcmp(o, "pre") ? MPT_ENUM(TraversePreOrder) : !strcmp(o, "in") ? MPT_ENUM(TraverseInOrder)
+	     : !strcmp(o, "level") ? MPT_ENUM(TraverseLevelOrder) : MPT_ENUM(TraversePostOrder);
+}
+static void res_walk(const MPT_STRUCT(node) *r)
+{
+	int i;
+	vh_tok("L");
+	if (!walk_n) vh_add("-");
+	for (i = 0; i < walk_n && i < 4 * MAXN; i++) vh_add(i ? ".%d:%d" : "%d:%d", walk_seq[i], walk_dep[i]);
+	vh_add(">P");
+	put_idx(r);
+}
+/* the arguments of mpt_node_locate a query token stands for (ml/c14_driver.ml:query_s has the
+ * identifier each of them denotes) */
+static void query(const char *q, const void **ident, size_t *len, int *charset)
+{
+	static int dummy;
+	*ident = 0; *len = 0; *charset = -1;
+	if (q[0] == 't' && q[1] >= 'a' && q[1] <= 'c') { static char nm[2]; nm[0] = q[1]; *ident = nm; *len = 1; }
+	else if (!strcmp(q, "tL")) { *ident = LONGNAME; *len = sizeof(LONGNAME) - 1; }
+	else if (!strcmp(q, "tM")) { *ident = MIDNAME; *len = sizeof(MIDNAME) - 1; }
+	else if (!strcmp(q, "t-")) { }
+	else if (!strcmp(q, "pa")) { *ident = "ab"; *len = 1; }
+	else if (!strcmp(q, "ua")) { *ident = "a"; *len = 2; *charset = MPT_CHARSET(UTF8); }
+	else if (!strcmp(q, "xa")) { *ident = "a"; *len = 1; *charset = MPT_CHARSET(UTF8); }
+	else if (!strcmp(q, "Ba")) { *ident = "a"; *len = 1; *charset = 0; }
+	else if (!strcmp(q, "Bb")) { *ident = "b"; *len = 1; *charset = 0; }
+	else if (!strcmp(q, "U0")) { *charset = 0; }
+	else if (!strcmp(q, "E")) { *len = 1; *charset = 0; }
+	else if (!strcmp(q, "p6")) { *ident = &dummy; *charset = MPT_CHARSET(ID4); }
+	else if (!strcmp(q, "pu")) { *ident = &dummy; *charset = MPT_CHARSET(UTF8); }
+	else if (!strcmp(q, "pn")) { *charset = MPT_CHARSET(UTF8); }
+	else { fprintf(stderr, "bad query %s\n", q); abort(); }
+}
+static const char *name_arg(const char *nm)
+{
+	return !strcmp(nm, "-") ? 0 : !strcmp(nm, "L") ? LONGNAME : !strcmp(nm, "M") ? MIDNAME : nm;
+}
 
 static int lsan_every = 1, case_no;
 /* wipe dead stack below the caller so that stale node pointers do not hide a leak */
@@ -204,9 +293,9 @@ static void run_case(int ntok, char **tok)
 			const char *nm = tok[t++];
 			int v = vh_int(tok[t++]);
 			MPT_STRUCT(node) *n = mpt_node_new(0);
-			if (strcmp(nm, "-")) mpt_identifier_set(&n->ident, nm, -1);
+			if (!strcmp(nm, "B")) { char *d = mpt_identifier_set(&n->ident, 0, 1); d[0] = 'a'; }
+			else if (strcmp(nm, "-")) mpt_identifier_set(&n->ident, name_arg(nm), -1);
 			if (v) n->_meta = hm_new(v);
-			learn(n);
 			res_p(n);
 		}
 		else if (!strcmp(op, "after") || !strcmp(op, "before")) {
@@ -243,14 +332,20 @@ static void run_case(int ntok, char **tok)
 				local = 0;
 			}
 		}
-		else if (!strcmp(op, "clone") || !strcmp(op, "lclone") || !strcmp(op, "tclone")) {
+		else if (!strcmp(op, "clone") || !strcmp(op, "lclone") || !strcmp(op, "tclone")
+		         || !strcmp(op, "fclone") || !strcmp(op, "flclone") || !strcmp(op, "ftclone")) {
+			/* f...: the k-th malloc of the call (mpt_node_new, mpt_identifier_copy) fails */
+			long k = op[0] == 'f' ? vh_int(tok[t++]) : 0;
 			int x = vh_int(tok[t++]);
+			const char *o = op[0] == 'f' ? op + 1 : op;
 			if (!live(x)) vh_tok("X");
 			else {
 				MPT_STRUCT(node) *r;
-				if (op[0] == 'c') { if ((r = mpt_node_clone(NODE(x)))) learn(r); }
-				else if (op[0] == 'l') { if ((r = mpt_list_clone(NODE(x)))) learn_list(r, MAXN); }
-				else if ((r = mpt_tree_clone(NODE(x)))) { learn(r); learn_list(r->children, MAXN); }
+				oom_count = k;
+				if (o[0] == 'c') r = mpt_node_clone(NODE(x));
+				else if (o[0] == 'l') r = mpt_list_clone(NODE(x));
+				else r = mpt_tree_clone(NODE(x));
+				oom_count = 0;
 				res_p(r);
 				r = 0;
 			}
@@ -292,13 +387,69 @@ static void run_case(int ntok, char **tok)
 			int p = vh_int(tok[t++]);
 			const char *nm = tok[t++];
 			int pos = vh_int(tok[t++]);
-			if (!live(p)) vh_tok("X"); else res_p(mpt_node_find(NODE(p), strcmp(nm, "-") ? nm : 0, pos));
+			if (!live(p)) vh_tok("X"); else res_p(mpt_node_find(NODE(p), name_arg(nm), pos));
 		}
 		else if (!strcmp(op, "next")) {
 			int x = vh_int(tok[t++]);
 			const char *nm = tok[t++];
-			if (!live(x)) vh_tok("X"); else res_p(mpt_node_next(NODE(x), strcmp(nm, "-") ? nm : 0));
+			if (!live(x)) vh_tok("X"); else res_p(mpt_node_next(NODE(x), name_arg(nm)));
 		}
+		else if (!strcmp(op, "loc")) {
+			int x = vh_int(tok[t++]), pos = vh_int(tok[t++]);
+			const char *q = tok[t++];
+			const void *ident; size_t len; int charset;
+			query(q, &ident, &len, &charset);
+			if (!live(x)) vh_tok("X"); else res_p(mpt_node_locate(NODE(x), pos, ident, len, charset));
+		}
+		else if (!strcmp(op, "walk")) {
+			const char *o = tok[t++];
+			int fl = vh_int(tok[t++]), k = vh_int(tok[t++]), x = vh_int(tok[t++]);
+			if (!live(x)) vh_tok("X");
+			else {
+				walk_n = 0; walk_stop = k;
+				res_walk(mpt_gnode_traverse(NODE(x), fl | order_flag(o), walk_fcn, 0));
+			}
+		}
+		/* ---- entry points with a NULL node ---- */
+		else if (!strcmp(op, "zadd")) {
+			int g = tok[t++][0] == 'g', pos = vh_int(tok[t++]), x = vh_int(tok[t++]);
+			if (!live(x)) vh_tok("X"); else res_p(g ? mpt_gnode_add(0, pos, NODE(x)) : mpt_node_add(0, pos, NODE(x)));
+		}
+		else if (!strcmp(op, "zaddn")) {
+			int g = tok[t++][0] == 'g', f = vh_int(tok[t++]), pos = vh_int(tok[t++]);
+			if (!live(f)) vh_tok("X"); else res_p(g ? mpt_gnode_add(NODE(f), pos, 0) : mpt_node_add(NODE(f), pos, 0));
+		}
+		else if (!strcmp(op, "zins")) {
+			int g = tok[t++][0] == 'g', p = vh_int(tok[t++]), pos = vh_int(tok[t++]);
+			if (!live(p)) vh_tok("X"); else vh_tok("Z%d", g ? mpt_gnode_insert(NODE(p), pos, 0) : mpt_node_insert(NODE(p), pos, 0));
+		}
+		else if (!strcmp(op, "zmove")) {
+			int p = vh_int(tok[t++]);
+			if (!live(p)) vh_tok("X"); else vh_tok("Z%zu", mpt_node_move(&NODE(p)->children, 0));
+		}
+		else if (!strcmp(op, "zpos")) { int pos = vh_int(tok[t++]); res_p(mpt_gnode_pos(0, pos)); }
+		else if (!strcmp(op, "zunlink")) res_p(mpt_node_unlink(0));
+		else if (!strcmp(op, "zdestroy")) res_p(mpt_node_destroy(0));
+		else if (!strcmp(op, "zrelink")) { mpt_gnode_relink(0); vh_tok("P-"); }
+		else if (!strcmp(op, "zclone")) res_p(mpt_node_clone(0));
+		else if (!strcmp(op, "zlclone")) res_p(mpt_list_clone(0));
+		else if (!strcmp(op, "ztclone")) res_p(mpt_tree_clone(0));
+		else if (!strcmp(op, "ztrav")) {
+			const char *o = tok[t++];
+			int fl = vh_int(tok[t++]);
+			walk_n = 0; walk_stop = 0;
+			res_walk(mpt_gnode_traverse(0, fl | order_flag(o), walk_fcn, 0));
+		}
+		else if (!strcmp(op, "ztravh")) {
+			int x = vh_int(tok[t++]);
+			walk_n = 0;
+			if (!live(x)) vh_tok("X"); else res_walk(mpt_gnode_traverse(NODE(x), MPT_ENUM(TraversePreOrder) | 3, 0, 0));
+		}
+		else if (!strcmp(op, "zloc")) { int pos = vh_int(tok[t++]); res_p(mpt_node_locate(0, pos, "a", 1, -1)); }
+		else if (!strcmp(op, "zfind")) res_p(mpt_node_find(0, "a", 1));
+		else if (!strcmp(op, "znext")) res_p(mpt_node_next(0, "a"));
+		else if (!strcmp(op, "zsame")) { int up = vh_int(tok[t++]); res_p(mpt_gnode_samelevel(0, up)); }
+		else if (!strcmp(op, "zsub")) { int up = vh_int(tok[t++]); res_p(mpt_gnode_sublevel(0, up)); }
 		else if (!strcmp(op, "end")) {
 			int i, left = 0;
 			for (i = 0; i < ntab; i++) {
